@@ -14,21 +14,32 @@ Inductive via := ViaReplicate | ViaSync | ViaGrpc.
 
 Record rcase := {
   rc_via : via; rc_cfg : config; rc_key : string; rc_ev : event; rc_found : bool;
+  rc_real : bool;             (* event and queue key were captured from a real in-process filer *)
   rc_ops : list sinkop;       (* calls the sink saw *)
   rc_panic : bool;            (* the event function panicked *)
-  rc_sigs_ok : bool           (* every call carried message.Signatures unchanged *)
+  rc_sigs_ok : bool           (* every call / mutating RPC carried message.Signatures unchanged
+                                 (ViaGrpc: and IsFromOtherCluster = true) *)
 }.
 
 Record lcase := {
   lc_cfg : config; lc_evs : list event;
   lc_tree : list (string * bool);   (* final scratch tree, (path, is directory) *)
+  lc_data : list (string * list N); (* the bytes of every file of the scratch tree *)
   lc_errs : list bool               (* per event: the event function returned an error *)
 }.
 
-Inductive case := CRec (r : rcase) | CLocal (l : lcase).
+Inductive case := CRec (r : rcase) | CLocal (l : lcase) | CEmit (op : emit_op).
+
+Fixpoint all2 {A} (f : A -> A -> bool) (l1 l2 : list A) : bool :=
+  match l1, l2 with
+  | [], [] => true
+  | x :: l1', y :: l2' => f x y && all2 f l1' l2'
+  | _, _ => false
+  end.
 
 Definition entry_eqb (a b : entry) : bool :=
-  String.eqb (e_name a) (e_name b) && Bool.eqb (e_isdir a) (e_isdir b) && String.eqb (e_date a) (e_date b).
+  String.eqb (e_name a) (e_name b) && Bool.eqb (e_isdir a) (e_isdir b) && String.eqb (e_date a) (e_date b) &&
+  all2 N.eqb (e_data a) (e_data b).
 
 Definition op_eqb (a b : sinkop) : bool :=
   match a, b with
@@ -38,12 +49,6 @@ Definition op_eqb (a b : sinkop) : bool :=
   | _, _ => false
   end.
 
-Fixpoint all2 {A} (f : A -> A -> bool) (l1 l2 : list A) : bool :=
-  match l1, l2 with
-  | [], [] => true
-  | x :: l1', y :: l2' => f x y && all2 f l1' l2'
-  | _, _ => false
-  end.
 
 Definition op_key (o : sinkop) : string :=
   match o with Create k _ => k | Delete k _ _ => k | Update k _ _ _ => k end.
@@ -53,10 +58,31 @@ Definition rpc_eqb (a b : sinkop) : bool :=
   match a, b with
   | Create k e, Create k' e' => String.eqb k k' && Bool.eqb (e_isdir e) (e_isdir e')
   | Delete k _ c, Delete k' _ c' => String.eqb k k' && Bool.eqb c c'
+  | Update k p _ _, Update k' p' _ _ => String.eqb k k' && String.eqb p p'
   | _, _ => false
   end.
-Definition is_update (o : sinkop) : bool := match o with Update _ _ _ _ => true | _ => false end.
-Definition rpcs (l : list sinkop) : list sinkop := filter (fun o => negb (is_update o)) l.
+(* FilerSink (weed/replication/sink/filersink/filer_sink.go) against a target filer
+   that answers every lookup with "not found" ([found] = false) or with an older
+   chunkless entry of the looked-up name ([found] = true):
+     CreateEntry  found: same ETag => "already replicated", no RPC; else CreateEntry RPC
+     UpdateEntry  not found: no RPC, answers (false, lookup error): the caller goes on to delete + create;
+                  found: UpdateEntry RPC {Directory: newParentPath, Entry: the EXISTING entry},
+                  i.e. at newParentPath/<old name>
+     DeleteEntry  DeleteEntry RPC *)
+Definition last_seg (k : string) : string := last (segs k) EmptyString.
+Definition rpc_view (found : bool) (o : sinkop) : list sinkop :=
+  match o with
+  | Create k e => if found then [] else [o]
+  | Delete _ _ _ => [o]
+  | Update k np e dc => if found then [Update (join [np; last_seg k]) np e dc] else []
+  end.
+(* the mutating RPCs of a plan: with [found] the UpdateOr stops after the update *)
+Definition rpcs (found : bool) (p : plan) : list sinkop :=
+  match p with
+  | Nothing | Panic => []
+  | Do o => rpc_view found o
+  | UpdateOr u d c => if found then rpc_view found u else rpc_view found d ++ rpc_view found c
+  end.
 
 Definition model_plan (r : rcase) : plan :=
   match rc_via r with
@@ -67,7 +93,7 @@ Definition model_plan (r : rcase) : plan :=
 
 Definition ops_match (v : via) (found : bool) (p : plan) (impl : list sinkop) : bool :=
   match v with
-  | ViaGrpc => all2 rpc_eqb (rpcs (run_rec false p)) impl
+  | ViaGrpc => all2 rpc_eqb (rpcs found p) impl
   | _ => all2 op_eqb (run_rec found p) impl
   end.
 
@@ -88,7 +114,13 @@ Definition rec_prop (r : rcase) : bool :=
   if is_echo r then (match rc_ops r with [] => true | _ => false end) && negb (rc_panic r) else
   if all_outside c ev then (match rc_ops r with [] => true | _ => false end) && negb (rc_panic r) else
   if touches_root c ev then true else
-  if incremental c then forallb (key_under_target c) (rc_ops r) && negb (rc_panic r)
+  if incremental c then
+    forallb (key_under_target c) (rc_ops r) && negb (rc_panic r) &&
+    (* genProcessFunction into an incremental sink: the date-folder reference *)
+    match rc_via r with
+    | ViaReplicate => true
+    | _ => negb (plain (date_key ev)) || ops_match (rc_via r) (rc_found r) (mirror_spec_inc c ev) (rc_ops r)
+    end
   else ops_match (rc_via r) (rc_found r) (mirror_spec c ev) (rc_ops r) && negb (rc_panic r).
 
 Definition rec_trig (r : rcase) : option N :=
@@ -100,7 +132,9 @@ Definition rec_trig (r : rcase) : option N :=
 
 Definition check_rec (r : rcase) : outcome :=
   let p := model_plan r in
-  {| o_corr := ops_match (rc_via r) (rc_found r) p (rc_ops r) && Bool.eqb (is_panic p) (rc_panic r) && rc_sigs_ok r;
+  {| o_corr := ops_match (rc_via r) (rc_found r) p (rc_ops r) && Bool.eqb (is_panic p) (rc_panic r) && rc_sigs_ok r &&
+               (* the queue key the real filer used is the model's event_key *)
+               (negb (rc_real r) || String.eqb (rc_key r) (event_key (rc_ev r)));
      o_prop := rec_prop r;
      o_trig := rec_trig r;
      o_nontrivial := match rc_ops r with [] => false | _ => true end |}.
@@ -115,12 +149,30 @@ Definition set_eqb {A} (f : A -> A -> bool) (a b : list A) : bool :=
 
 Definition check_local (l : lcase) : outcome :=
   let '(t, errs) := run_local (lc_cfg l) [] (lc_evs l) in
-  {| o_corr := set_eqb tree_entry_eqb t (lc_tree l) && all2 Bool.eqb errs (lc_errs l);
-     o_prop := set_eqb String.eqb (files_of (lc_tree l)) (spec_files (lc_cfg l) (lc_evs l));
+  let data_eqb := fun a b : string * list N => String.eqb (fst a) (fst b) && all2 N.eqb (snd a) (snd b) in
+  {| o_corr := set_eqb tree_entry_eqb t (lc_tree l) && all2 Bool.eqb errs (lc_errs l) &&
+               set_eqb data_eqb (snd (run_local_data (lc_cfg l) ([], []) (lc_evs l))) (lc_data l);
+     (* the reference file set, for histories inside the hypotheses of c36_local_mirror *)
+     o_prop := negb (wf_config (lc_cfg l) && forallb wf_event (lc_evs l)) ||
+               existsb (touches_root (lc_cfg l)) (lc_evs l) ||
+               local_clash (lc_cfg l) [] (lc_evs l) ||
+               (set_eqb String.eqb (files_of (lc_tree l)) (spec_files (lc_cfg l) (lc_evs l)) &&
+                (* and every file holds the bytes of the last new entry at that path *)
+                set_eqb data_eqb (lc_data l) (spec_data (lc_cfg l) (lc_evs l)));
      o_trig := None;
-     o_nontrivial := match lc_tree l with [] => false | _ => true end |}.
+     o_nontrivial := match lc_tree l with [] => false | _ => true end &&
+                     negb (local_clash (lc_cfg l) [] (lc_evs l)) |}.
+
+(* ----- the labels of emitted events ----- *)
+Definition zlist_eqb (a b : list Z) : bool := all2 Z.eqb a b.
+Definition check_emit (op : emit_op) : outcome :=
+  {| o_corr := forallb (fun m => let '(sg, fl) := emit_label op m in
+                                 zlist_eqb sg (m_sigs m) && Bool.eqb fl (m_from_other m)) (em_evs op);
+     o_prop := forallb (fun m => emit_ok op (m_sigs m) (m_from_other m)) (em_evs op);
+     o_trig := if emit_unsafe op then Some 1%N else None;
+     o_nontrivial := match em_evs op with _ :: _ :: _ => true | _ => false end |}.
 
 Definition check (c : case) : outcome :=
-  match c with CRec r => check_rec r | CLocal l => check_local l end.
+  match c with CRec r => check_rec r | CLocal l => check_local l | CEmit op => check_emit op end.
 
 Definition summarize_cases (l : list case) : summary := summarize check l.
